@@ -87,6 +87,7 @@ func VerifC14_Cache() {
 				if st != nil && f.obj == st.OcspResponse {
 					ok = true
 					verifrt.Assert(f.cert == which, "cached status is only returned for the certificate (issuer and serial) it was obtained for")
+					verifrt.Assert(st.Revoked == (f.status == xocsp.Revoked), "a cached answer gives the same verdict as when it was fetched (revoked stays revoked)")
 					verifrt.Assert(f.lifetime > 0, "an answer without a lifetime is never cached")
 					verifrt.Assert(t <= f.at+f.lifetime, "cached status is not served after its lifetime, however often it was read")
 				}
